@@ -254,6 +254,48 @@ def gen_schema(rng, depth: int, extras: bool, want_root_base=None) -> Schema:
     return sch
 
 
+SIMPLE_FIELDS = [
+    ("seq", "list", ("atom", "int")), ("seq", "list", ("atom", "str")), ("map", "dict", ("atom", "str"), ("atom", "int")),
+    ("seq", "set", ("atom", "str")), ("seq", "list", ("seq", "list", ("atom", "int"))),
+    ("map", "dict", ("atom", "str"), ("seq", "list", ("atom", "int"))), ("seq", "list", ("leaf", "date")),
+    ("opt", ("seq", "list", ("atom", "int"))), ("seq", "deque", ("atom", "int")), ("seq", "list", ("any",)),
+    ("map", "OrderedDict", ("atom", "str"), ("atom", "float")), ("seq", "frozenset", ("atom", "int")),
+    ("seq", "Sequence", ("atom", "int")), ("map", "Mapping", ("atom", "str"), ("atom", "int")),
+    ("seq", "list", ("opt", ("atom", "int"))), ("tupv", ("seq", "list", ("atom", "int"))),
+]
+
+
+def gen_schema_focus(rng) -> Schema:
+    """dialect interplay: a chain of 2-4 nested dataclasses (plain / mixin / format mixin), each with its own
+    optional Config.dialect and ADD_DIALECT_SUPPORT, fields are containers whose copy/no-copy decision depends
+    only on the effective no_copy_collections of the class they sit in"""
+    sch = Schema()
+    nd = rng.randint(1, 3)
+    for _ in range(nd):
+        r = rng.random()
+        sch.dialects.append(None if r < 0.15 else rng.choice([["list", "dict"], ["list"], ["dict", "set"], [],
+                                                               ["list", "dict", "set", "deque"], ["set", "frozenset"],
+                                                               ["OrderedDict", "Sequence", "list"]]))
+    ncls = rng.randint(2, 4)
+    for i in range(ncls):
+        base = rng.choice(["dict", "dict", "orjson", "msgpack", "toml"]) if i == 0 else \
+            rng.choice(["plain", "plain", "dict", "orjson", "msgpack"])
+        fields = [(f"f{j}", rng.choice(SIMPLE_FIELDS)) for j in range(rng.randint(1, 3))]
+        if i + 1 < ncls:
+            t = ("dc", i + 1)
+            wrap = rng.choice(["plain", "plain", "list", "dict", "opt"])
+            if wrap == "list":
+                t = ("seq", "list", t)
+            elif wrap == "dict":
+                t = ("map", "dict", ("atom", "str"), t)
+            elif wrap == "opt":
+                t = ("opt", t)
+            fields.insert(rng.randrange(len(fields) + 1), ("g", t))
+        sch.classes.append({"name": f"C{i}", "base": base, "sup": rng.random() < 0.4,
+                            "dialect": (rng.randrange(nd) if rng.random() < 0.5 else None), "fields": fields})
+    return sch
+
+
 # ---------------------------------------------------------------------------
 # python source of a schema
 # ---------------------------------------------------------------------------
@@ -385,7 +427,7 @@ def field_order(c):
 def gen_any_src(rng, depth, jsonish: bool) -> str:
     r = rng.random()
     if depth <= 0 or r < 0.3:
-        return rng.choice(["1", "'s'", "None", "2.5", "True", "[]", "{}"])
+        return rng.choice(["1", "'s'", "2.5" if NO_NONE[0] else "None", "2.5", "True", "[]", "{}"])
     if r < 0.65:
         return "[" + ", ".join(gen_any_src(rng, depth - 1, jsonish) for _ in range(rng.randint(0, 3))) + "]"
     if r < 0.9 or jsonish:
@@ -1071,8 +1113,11 @@ class Case:
 
 
 def build_case(rng, side: str, depth: int, extras: bool):
-    sch = gen_schema(rng, depth, extras)
+    focus = rng.random() < 0.35
+    sch = gen_schema_focus(rng) if focus else gen_schema(rng, depth, extras)
     entry = gen_entry(rng, sch, side)
+    if focus and entry["api"] == "codec" and rng.random() < 0.75:
+        entry = gen_entry(rng, sch, side)
     if entry["api"] == "codec":
         # codecs take any top-level type
         if rng.random() < 0.5:
@@ -1085,7 +1130,7 @@ def build_case(rng, side: str, depth: int, extras: bool):
         top = ("dc", 0)
     toml = entry["fmt"] == "toml"
     c = Case()
-    c.side, c.sch, c.entry, c.top = side, sch, entry, top
+    c.side, c.sch, c.entry, c.top, c.focus = side, sch, entry, top, focus
     c.src = schema_src(sch, top)
     NO_NONE[0] = toml
     try:
@@ -1147,7 +1192,7 @@ def oracle(ctx, c: Case):
     if c.after != c.before or not (c.deep_before == c.v):
         ctx.fail(f"{c.side}: the argument was mutated by {c.call_src}",
                  replay_dict(c, "argument changed", "argument unchanged"), {**sig_base, "kind": "mutated-input"})
-        failed = True
+        return True       # the argument can no longer be trusted to conform: stop here
     vw = entry_view(c.entry, sch, use_readme=True)
     exp_roots, gaps = [], []
     if c.side == "pack":
@@ -1331,6 +1376,7 @@ def hist_case(ctx, c: Case):
     ctx.hist("top_kind", c.top[0])
     ctx.hist("n_classes", str(len(c.sch.classes)))
     ctx.hist("in_coq_grammar", str(c.sch.model))
+    ctx.hist("generator", "dialect-interplay" if getattr(c, "focus", False) else "general")
 
 
 def shape_key(c: Case):
@@ -1384,7 +1430,8 @@ def run(ctx: vlib.Ctx):
             drop_module(c.mod)
 
 
-THEOREMS = ["C18_share", "C18_decode_fresh", "C18_share_full_refuted"]
+THEOREMS = ["C18_share", "C18_decode_fresh", "C18_default_fresh", "C18_decode_all_fresh", "C18_no_mutation",
+            "C18_decode_no_mutation", "C18_share_partial", "C18_share_full_refuted"]
 
 
 def replay(rep: dict) -> int:
